@@ -604,6 +604,14 @@ func harvestPayload(p PayloadCreator, args *harvestArgs, duc dataUsageController
 	// If we receive an error, the data was not stored into the collector
 	addDataUsage(duc.duc, cmd.Name, 0, len(reply.Body))
 
+	if args.blocking {
+		// Final harvest before exit: the processor loop has stopped, so
+		// nothing receives from the error channel any more and the data
+		// could not be retried anyway.
+		log.Warnf("app with run id %q received %s during the final harvest", args.id, reply.Err)
+		return
+	}
+
 	args.harvestErrorChannel <- HarvestError{
 		Reply: reply,
 		id:    args.id,
